@@ -85,3 +85,58 @@ Fixpoint hoffsets (cur : Z) (fs : list (bool * htype)) : list Z :=
   | [] => []
   | (_, f) :: r => let o := hplace cur f in o :: hoffsets (o + hsize f) r
   end.
+
+(* ---- the struct definitions naga emits for constant buffers, transliterated from
+   /repo/hlsl/internal/codegen/types.go writeStructDefinition (79-178) and hlslTypeSize
+   (1339-1385): `int _padN_k` members for (member.Offset - lastOffset) / 4, lastOffset =
+   member.Offset + hlslTypeSize(member type); matCx2 members decomposed into C float2
+   columns; arrays of matCx2 use the __matCx2 typedef (a struct of C float2); end padding
+   up to Span. *)
+Definition hlsl_type_size_fix (rec : ty -> Z) (t : ty) : Z :=
+  match t with
+  | TScalar s => nwidth s
+  | TAtomic s => nwidth s
+  | TVec n s => u32 (n * nwidth s)
+  | TMat c r s => u32 (u32 ((c - 1) * u32 (hlsl_alignment_from_vector_size r * nwidth s)) + u32 (r * nwidth s))
+  | TArray e n => if n =? 0 then 0 else u32 (u32 ((n - 1) * nstride e) + rec e)
+  | TRArray e => rec e
+  | TStruct ms => nspan (ninfos ms)
+  end.
+Fixpoint hlsl_type_size (t : ty) : Z :=
+  match t with
+  | TArray e n => if n =? 0 then 0 else u32 (u32 ((n - 1) * nstride e) + hlsl_type_size e)
+  | TRArray e => hlsl_type_size e
+  | _ => hlsl_type_size_fix (fun _ => 0) t
+  end.
+
+Definition ints (k : Z) : list (bool * htype) := repeat (true, HS) (Z.to_nat k).
+Definition mat_columns (c : Z) : list (bool * htype) :=
+  match Z.to_nat c with
+  | O => []
+  | S k => (false, HV 2) :: repeat (true, HV 2) k
+  end.
+
+Fixpoint hlsl_fields (last : Z) (ms : list member) (offs : list Z) (span : Z) (defs : list htype)
+  : list (bool * htype) :=
+  match ms, offs, defs with
+  | m :: r, o :: ro, d :: rd =>
+      let pad := if last <? o then ints (u32 (o - last) / 4) else [] in
+      let field := match mty m with
+                   | TMat c 2 _ => mat_columns c
+                   | _ => [(false, d)]
+                   end in
+      pad ++ field ++ hlsl_fields (u32 (o + hlsl_type_size (mty m))) r ro span rd
+  | _, _, _ => if last <? span then ints (u32 (span - last) / 4) else []
+  end.
+
+Fixpoint hlsl_def (t : ty) : htype :=
+  match t with
+  | TScalar _ | TAtomic _ => HS
+  | TVec n _ => HV n
+  | TMat c r _ => if r =? 2 then HStruct (repeat (false, HV 2) (Z.to_nat c)) else HM c r
+  | TArray e n => HA (hlsl_def e) n
+  | TRArray e => HA (hlsl_def e) 1
+  | TStruct ms =>
+      HStruct (hlsl_fields 0 ms (noffsets (ninfos ms)) (nspan (ninfos ms))
+                 (map (fun m => match m with Mem _ _ t' => hlsl_def t' end) ms))
+  end.
